@@ -193,7 +193,7 @@ def R2(vc):
         call = lambda fn: fn(reg, cause=cause, excluded=box)
         qualname = ('SpawningRegistry' if which == 0 else 'ChangingRegistry') + '.requires_finalizer'
         clause = 'spawning_requires_finalizer' if which == 0 else 'changing_requires_finalizer'
-    res = _exists_loop(vc, qualname=qualname, reg=reg, anchor='for handler in self._handlers', h=h, qualifies=qualifies,
+    res = _exists_loop(vc, qualname=qualname, reg=reg, anchor='in self._handlers', h=h, qualifies=qualifies,
                        stubs={'match': match, 'prematch': prematch}, call=call, clause=clause)
     vc.ensure('frame', all(ch is h and cc is cause for ch, cc in calls))
     vc.ensure('frame', all(a is h.id or a == h.id for a in box.asked))
@@ -271,7 +271,7 @@ def R7(vc):
         calls.append((handler, res)); return serves
     vc.used('registries._matches_resource', 'R10')
     if part == 0:
-        res = _exists_loop(vc, qualname='ResourceRegistry.has_handlers', reg=reg, anchor='for handler in self._handlers', h=h,
+        res = _exists_loop(vc, qualname='ResourceRegistry.has_handlers', reg=reg, anchor='in self._handlers', h=h,
                            qualifies=lambda: serves, stubs={'_matches_resource': _matches_resource},
                            call=lambda fn: fn(reg, resource=resource), clause='has_iff_some_handler_serves')
         vc.ensure('frame', all(ch is h and cr is resource for ch, cr in calls))
@@ -307,7 +307,7 @@ def R7(vc):
         vc.ensure('frame', all(ch is h and cr is resource for ch, cr in calls))
         vc.canary('canary.collects_all', len(ghost.appended) == 1)
     ld = vc.load(REG, 'ChangingRegistry.get_resource_handlers', stubs={'_matches_resource': _matches_resource, '_deduplicated': _deduplicated},
-                 loops={1: LoopSpec('for handler in self._handlers', havoc=havoc, element=element, at_entry=at_entry,
+                 loops={1: LoopSpec('in self._handlers', havoc=havoc, element=element, at_entry=at_entry,
                                     at_backedge=at_back, rebinds=('found_handlers',))})
     out = ld.fn(reg, resource=resource)
     vc.ensure('collects_serving_in_order', state['exhausted'])       # the walk ends only when the handlers are exhausted
@@ -392,7 +392,7 @@ def R8(vc):
         vc.canary('canary.yields_all', len(yielded) == 1)
         vc.canary('canary.never_yields', len(yielded) == 0)
     ld = vc.load(REG, REGISTRY_OF[kind].__name__ + '.iter_handlers', stubs={'match': match},
-                 loops={1: LoopSpec('for handler in self._handlers', element=element, at_backedge=at_back)})
+                 loops={1: LoopSpec('in self._handlers', element=element, at_backedge=at_back)})
     for y in ld.fn(reg, cause, box):
         yielded.append(y)
     vc.ensure('selection', state['exhausted'] and len(yielded) == 0)     # the walk ends only when the handlers are exhausted
@@ -403,10 +403,11 @@ def R8(vc):
 ACT = causes.Activity
 
 
-@harness('R9', targets=[f'{REG}.ActivityRegistry.iter_handlers', f'{REG}.ActivityRegistry.get_handlers'],
+@harness('R9', targets=[f'{REG}.ActivityRegistry.iter_handlers', f'{REG}.ActivityRegistry.get_handlers',
+                        f'{REG}.SmartOperatorRegistry.__init__'],
          props=['C20', 'C12'],
          clauses=['found_starts_false', 'regular_pass', 'found_tracks_regular_matches', 'fallback_only_if_no_regular',
-                  'fallback_pass', 'frame', 'get_handlers_deduplicates', 'fallbacks_name_their_activity'],
+                  'fallback_pass', 'frame', 'get_handlers_deduplicates', 'fallbacks_name_their_activity', 'piggybacking_logins'],
          canaries=['canary.yields_all', 'canary.fallback_pass_unreachable'],
          assumes=['a fallback handler (non-public ActivityHandler._fallback) always names its activity: the only producers are '
                   'SmartOperatorRegistry (activity=AUTHENTICATION; checked here by clause fallbacks_name_their_activity) and none of '
@@ -428,7 +429,36 @@ def R9(vc):
     `activity is None or activity == a and not _fallback` would treat a catch-all fallback handler as a regular one
     (yielded in pass 1, suppressing the other fallbacks) -- no such handler can be declared, see the report.
     """
-    part = vc.nondet(2, 'iter_handlers | get_handlers + producers')
+    part = vc.nondet(3, 'iter_handlers | get_handlers + producers | default logins')
+    if part == 2:
+        # SmartOperatorRegistry (the default registry): docs/authentication.rst "Piggybacking" -- without declared login handlers
+        # the installed client libraries are used, ALL of them ("as if multiple handlers are installed"); the rudimentary
+        # service-account / kubeconfig logins stand in when no library is installed.  All of them are FALLBACK logins (they step
+        # back as soon as a login handler is declared), and one failing must not stop the others (errors ignored).
+        has = {n: vc.bool(n) for n in ('has_pykube', 'has_client', 'has_sync_client', 'has_async_client', 'has_kubeconfig', 'has_service_account')}
+        vc.assume(Implies(has['has_client'], Or(has['has_sync_client'], has['has_async_client'])), 'an installed client library is sync or async')
+        pig = registries.piggybacking
+        stubs = {f'piggybacking.{n}': (lambda n=n: has[n]) for n in has}
+        me = object.__new__(registries.SmartOperatorRegistry)
+        stubs['super'] = lambda: Opaque('super()', __init__=lambda: registries.OperatorRegistry.__init__(me))
+        vc.load(REG, 'SmartOperatorRegistry.__init__', stubs=stubs).fn(me)
+        hs = me._activities.get_all_handlers()
+        others = [x for attr in ('_indexing', '_watching', '_spawning', '_changing', '_webhooks') for x in getattr(me, attr).get_all_handlers()]
+        vc.ensure('piggybacking_logins', not others and all(type(x) is handlers.ActivityHandler for x in hs))
+        vc.ensure('piggybacking_logins', all(x.activity is ACT.AUTHENTICATION and x._fallback is True and x.errors is execution.ErrorsMode.IGNORED for x in hs))
+        vc.ensure('piggybacking_logins', len({x.id for x in hs}) == len(hs))
+        fns = [x.fn for x in hs]
+        third = Or(has['has_pykube'], has['has_client'])
+        vc.ensure('piggybacking_logins', Iff(pig.login_via_pykube in fns, has['has_pykube']))
+        vc.ensure('piggybacking_logins', Iff(pig.login_via_client in fns or pig.login_via_async_client in fns, has['has_client']))
+        vc.ensure('piggybacking_logins', not (pig.login_via_client in fns and pig.login_via_async_client in fns))
+        vc.ensure('piggybacking_logins', Implies(pig.login_via_client in fns, has['has_sync_client']))
+        vc.ensure('piggybacking_logins', Implies(pig.login_via_async_client in fns, has['has_async_client']))
+        vc.ensure('piggybacking_logins', Iff(pig.login_with_kubeconfig in fns, And(Not(third), has['has_kubeconfig'])))
+        vc.ensure('piggybacking_logins', Iff(pig.login_with_service_account in fns, And(Not(third), has['has_service_account'])))
+        vc.ensure('piggybacking_logins', all(f in (pig.login_via_pykube, pig.login_via_client, pig.login_via_async_client,
+                                                   pig.login_with_kubeconfig, pig.login_with_service_account) for f in fns))
+        return ('defaults', len(hs))
     if part == 1:
         inner, marker, seen = _RawHandlers(), [Opaque('d1')], {}
 
@@ -501,8 +531,8 @@ def R9(vc):
         vc.ensure('fallback_pass', Iff(len(yielded) == 1, fb))
         vc.ensure('fallback_pass', len(yielded) <= 1 and all(y is h for y in yielded))
     ld = vc.load(REG, 'ActivityRegistry.iter_handlers', loops={
-        1: LoopSpec('for handler in self._handlers', name='regular pass', element=element, havoc=havoc1, at_entry=entry1, at_backedge=back1),
-        2: LoopSpec('for handler in self._handlers', name='fallback pass', element=element, at_entry=entry2, at_backedge=back2)})
+        1: LoopSpec('in self._handlers', name='regular pass', element=element, havoc=havoc1, at_entry=entry1, at_backedge=back1),
+        2: LoopSpec('in self._handlers', name='fallback pass', element=element, at_entry=entry2, at_backedge=back2)})
     for y in ld.fn(reg, activity=activity):
         yielded.append(y)
     # the generator ended: both passes exhausted, or pass 1 exhausted with found set (then pass 2 must not have run)
@@ -1158,6 +1188,8 @@ def R15(vc):
         got = _registered(reg)
         vc.ensure('returns_the_function', ret is myfn)
         vc.ensure('one_handler_in_its_registry', len(got) == 1)
+        if not got:
+            return (kind, 'nothing registered')
         attr, h = got[0]
         want_attr = REGISTRY_ATTR.get(kind, '_changing')
         want_cls = HANDLER_CLASS.get(kind, handlers.ChangingHandler)
@@ -1210,10 +1242,26 @@ def R15(vc):
         kw = dict(registry=reg, param=P, **policy)
         if explicit_id:
             kw['id'] = 'explicit'
-        ret = vc.load('kopf.on', kind).fn(**kw)(myfn)
+        if vc.nondet(2, 'registry= given | the default registry') == 1:
+            # without registry= the handler lands in the process-wide default registry (here: set to `reg` for the moment)
+            del kw['registry']
+            saved = registries._default_registry
+            registries.set_default_registry(reg)      # (run natively: it rebinds a module global, which a loaded copy would not share)
+            try:
+                vc.ensure('one_handler_in_its_registry', registries.get_default_registry() is reg)
+                ret = vc.load('kopf.on', kind).fn(**kw)(myfn)
+                on.event('kopfexamples', id='ev')(myfn)
+                vc.ensure('one_handler_in_its_registry', [x.id for x in reg._watching.get_all_handlers()] == ['ev'])
+                reg._watching._handlers.clear()
+            finally:
+                registries._default_registry = saved
+        else:
+            ret = vc.load('kopf.on', kind).fn(**kw)(myfn)
         got = _registered(reg)
         vc.ensure('returns_the_function', ret is myfn)
         vc.ensure('one_handler_in_its_registry', len(got) == 1 and got[0][0] == '_activities' and type(got[0][1]) is handlers.ActivityHandler)
+        if not got:
+            return (kind, 'nothing registered')
         h = got[0][1]
         vc.ensure('activity_kind', h.activity is ACTIVITY_KINDS[kind] and h._fallback is False and h.fn is myfn and h.param is P)
         vc.ensure('error_policy_passed_through', h.errors is E_ and h.timeout == 12.5 and h.retries == 3 and h.backoff == 0.5)
@@ -1245,6 +1293,8 @@ def R15(vc):
         hs = sub.get_all_handlers()
         vc.ensure('returns_the_function', ret is myfn)
         vc.ensure('subhandler', len(hs) == 1 and type(hs[0]) is handlers.ChangingHandler and hs[0].fn is myfn)
+        if not hs:
+            return ('sub', 'nothing registered')
         h = hs[0]
         vc.ensure('subhandler', h.id == 'parent/spec.x/child' if pkind == 'field' else h.id == 'parent/child')
         vc.ensure('subhandler', h.selector is None and h.reason is None and _falsy(h.initial) and _falsy(h.requires_finalizer))
@@ -1320,6 +1370,10 @@ def R15(vc):
             vc.load('kopf.on', k).fn('kopfexamples', registry=r2, field='spec.x', value='')(myfn)
             hs = [h for _a, h in _registered(r2)]
             vc.ensure('criteria_passed_through', len(hs) == 2 and hs[0].labels == {'l': ''} and hs[0].annotations == {} and hs[1].value == '')
+            if k != 'field':        # an empty field path is "no field": stored as None, no id suffix
+                r3 = kopf.OperatorRegistry()
+                vc.load('kopf.on', k).fn('kopfexamples', registry=r3, id='x', field=[])(myfn)
+                vc.ensure('criteria_passed_through', [(h3.field, h3.id) for _a, h3 in _registered(r3)] == [(None, 'x')])
         vc.ensure('rejects_invalid', True)
     return ('rejections', case)
 
